@@ -55,8 +55,56 @@ def gen_cases(rng, tier):
     return out
 
 
-model_input = c02.model_input
-impl_projection = c02.impl_projection
+def key_history(obs):
+    """per step: (who, folder order, history of saved (folder, fingerprint) pairs as the harness knows them)"""
+    lines = {}
+    kc = {}
+    ops = {}
+    for o in obs:
+        t = o.split()
+        if len(t) >= 4 and t[0].startswith("!") and t[2] == "idkeys":
+            lines[(int(t[0][1:]), t[1])] = [x.split("=", 1) for x in t[3].split(";") if "=" in x]
+        elif len(t) >= 3 and t[0].startswith("!") and t[1] == "keycheck":
+            kc[int(t[0][1:])] = dict(x.split("=", 1) for x in t[2:] if "=" in x)
+        elif len(t) >= 2 and t[0].isdigit() and t[1].startswith("op="):
+            ops[int(t[0])] = t[1][3:]
+    out = {}
+    hist = {}
+    for (st, who) in sorted(lines):
+        h = hist.setdefault(who, [])
+        op = ops.get(st, "")
+        k = kc.get(st, {})
+        if op[:1] == "w" and who == "D" + op[1:2] and k.get("changed") == "1" and k.get("folder"):
+            h.append((k["folder"], k["newfp"]))
+        known = set(f for f, _ in h)
+        for f, fp in lines[(st, who)]:
+            if f not in known and fp != "-":
+                h.append((f, fp))            # first sight of a folder: the password saved when it was created
+        out[(st, who)] = ([f for f, _ in lines[(st, who)]], list(h))
+    return out
+
+
+def model_input(cases, impl):
+    out = c02.model_input(cases, impl)
+    for c in cases:
+        cid = c.split()[1]
+        for (st, who), (order, h) in sorted(key_history(impl.get(cid, [])).items()):
+            if who != "D0": continue
+            out.append("c12 %s idkeys %d %s order=%s hist=%s" % (cid, st, who, ";".join(order), ",".join("%s:%s" % x for x in h)))
+    return out
+
+
+def impl_projection(obs):
+    out = c02.impl_projection(obs)
+    for o in obs:
+        t = o.split()
+        if len(t) >= 4 and t[0].startswith("!") and t[2] == "idkeys" and t[1] == "D0":
+            out.append("%s %s idkeys %s" % (t[0][1:], t[1], t[3]))
+    return out
+
+
+def canon(lines):
+    return sorted(lines)
 
 
 def oracle(case, obs):
